@@ -12,7 +12,8 @@
     (mantissa / 10^decimals * 10^exponent), [out_unit o] the unit of the last printed digit.
     n ranges over 1..13 (the property: 1..6); no bound on the magnitudes is needed. *)
 From Coq Require Import ZArith QArith Qabs Bool.
-From QV Require Import Model.Printing Proofs.PrintingAux Proofs.Printing Proofs.PrintingInst.
+From Coq Require Import List.
+From QV Require Import Model.Printing Model.PrintingObj Proofs.PrintingAux Proofs.Printing Proofs.PrintingInst Proofs.PrintingObj.
 Open Scope Q_scope.
 
 (** automatic and error mode, non-zero uncertainty: formatting succeeds; value and uncertainty
@@ -99,6 +100,21 @@ Theorem C09_zero_value : forall ord, ord_spec ord -> forall rd, rounders_ok rd -
     Qabs (out_error o - e) <= (1 # 2) * out_unit o.
 Proof. exact zero_value_lemma. Qed.
 Print Assumptions C09_zero_value.
+
+(** object histories (Model/PrintingObj.v): a measurement object is printed, changed through
+    any public path (value / error / relative_error setters, use_std / use_error_on_mean /
+    use_error_weighted_mean / use_propagated_error, changes of the print settings) and printed
+    again, any number of times.  Every text printed along every such history is the printer's
+    text for the value and uncertainty the object holds AT THAT MOMENT under the settings of
+    that moment (so the four theorems above apply to the current pair: the state is in their
+    domain), and formatting succeeds. *)
+Theorem C09_history : forall ord, ord_spec ord -> forall rd, rounders_ok rd ->
+  forall ops st, state_ok st -> Forall op_ok ops ->
+  Forall (fun p => state_ok (fst p) /\
+                   snd p = printer ord rd (s_style (fst p)) (s_cfg (fst p)) (s_value (fst p)) (s_error (fst p)) /\
+                   exists o, snd p = Some o) (run ord rd st ops).
+Proof. exact history_lemma. Qed.
+Print Assumptions C09_history.
 
 (** [order_of] (the helper of __find_number_of_decimals that tolerates a power of ten that came
     out a rounding error too low) is floor(log10) except within a relative 1e-14 below a power
